@@ -7,7 +7,12 @@
   `c09_rotateOur`/`Keys.generateNewDHKeyPair`: a rotation overwrites the previous slot.
   `akeHasFinished_run`: on completion the AKE context is reset to its zero value (`Ake.wiped`: secret
   exponent, r, gx, both AKE key triples gone). `endSession_spec`: after End both DH slots are empty,
-  the AKE context is gone and SMP state is reset; `processDisconnectedTLV_run`: after the peer's
+  the AKE context is gone and SMP state is reset — `endSession_forgets` (repaired code): from EVERY
+  message state and whatever became of the disconnect message the SMP context is the zero value (no
+  secret, exponents, stored messages, question) and the resend state holds no text unless it is in
+  the branch `mayRetransmit = .exact` (texts sent under required encryption before any session existed,
+  still waiting for one); `endSession_resend_state`: the same in terms of the state before the call;
+  `processDisconnectedTLV_run`: after the peer's
   disconnect `keys = {}`, `smp = {}`, `ake = none`. `send_requireEncryption` + the resend bookkeeping
   compared op by op (snapshot field rs): retained texts are the queued ones or the single last one.
   Heap level (what a model cannot see: copies, aliases, dropped-but-not-zeroed buffers): the `mem`
@@ -21,6 +26,7 @@
 
 import Proofs.ConvLife
 import Proofs.Keys
+import Proofs.Fixes2
 namespace Otr.C08
 open Otr
 
@@ -41,5 +47,14 @@ theorem createSerializedDataMessage_sendFrame : type_of% @Otr.createSerializedDa
 theorem c09_rotateOur : type_of% @Otr.c09_rotateOur := @Otr.c09_rotateOur
 
 theorem c19_bounded : type_of% @Otr.c19_bounded := @Otr.c19_bounded
+
+/-- repaired code, exact decomposition of End from an encrypted state -/
+theorem endSession_encrypted_run : type_of% @Otr.endSession_encrypted_run := @Otr.endSession_encrypted_run
+
+/-- repaired code: after End the SMP context is wiped and the resend state holds no text outside the `.exact` branch -/
+theorem endSession_forgets : type_of% @Otr.endSession_forgets := @Otr.endSession_forgets
+
+/-- repaired code: the last text of the session that ends is neither kept nor resent later -/
+theorem endSession_resend_state : type_of% @Otr.endSession_resend_state := @Otr.endSession_resend_state
 
 end Otr.C08
